@@ -4,6 +4,7 @@
   EG.Lemmas.ThickGeoFrame. Used by the statements of EG/Props/C17/Stroke.lean.
 -/
 import EG.Lemmas.ThickGeoMain
+import Mathlib.Tactic.Ring
 namespace EG.C17.Stroke
 open EG
 
@@ -54,5 +55,32 @@ theorem majorLen_eq (l : Line) : majorLen l = (Thick.ctxOf l).D := by
   unfold majorLen Line.dmaj Line.yMajor Line.aabs
   rw [hx, hy]
   split <;> omega
+
+
+/-- The band form is twice the cross product, up to the orientation of the line's step pair. -/
+theorem ph_cross (l : Line) (p : Pt) :
+    (Thick.ctxOf l).ph p - (Thick.ctxOf l).ph l.start = 2 * cross l p ∨
+    (Thick.ctxOf l).ph p - (Thick.ctxOf l).ph l.start = -(2 * cross l p) := by
+  obtain ⟨hx, hy⟩ := strokeDir_eq l
+  have h := Thick.delta_decomp (Thick.paramLine l)
+  rw [Pt.ext_iff'] at h
+  simp only [Pt.sub_x, Pt.sub_y, Pt.add_x, Pt.add_y, Thick.smul_x, Thick.smul_y] at h
+  obtain ⟨hdx, hdy⟩ := h
+  have hx' : (strokeDir l).x =
+      (Thick.ctxOf l).D * (Thick.ctxOf l).M.x + (Thick.ctxOf l).d * (Thick.ctxOf l).m.x := by
+    rw [hx]; exact hdx
+  have hy' : (strokeDir l).y =
+      (Thick.ctxOf l).D * (Thick.ctxOf l).M.y + (Thick.ctxOf l).d * (Thick.ctxOf l).m.y := by
+    rw [hy]; exact hdy
+  unfold cross
+  rw [hx', hy']
+  unfold Thick.StrokeCtx.ph Thick.StrokeCtx.amaj Thick.StrokeCtx.amin
+  rcases (Thick.ctxOf_valid l).ax with ⟨e1 | e1, e2 | e2⟩ | ⟨e1 | e1, e2 | e2⟩ <;> rw [e1, e2] <;>
+    simp only <;> first | (left; ring1) | (right; ring1)
+
+theorem ph_sq (l : Line) (p : Pt) :
+    ((Thick.ctxOf l).ph p - (Thick.ctxOf l).ph l.start) *
+      ((Thick.ctxOf l).ph p - (Thick.ctxOf l).ph l.start) = 4 * cross l p ^ 2 := by
+  rcases ph_cross l p with h | h <;> rw [h] <;> ring
 
 end EG.C17.Stroke
